@@ -302,7 +302,7 @@ def run(chk: Check):
     # compiled while cached calls repeat, enough of them for the kernel cache to fill and evict)
     for rep in range(3 if thorough else 1):
         hspec = {"seed": chk.seed * 101 + rep, "threads": 8, "calls": 4000 if thorough else 1200, "builders": 3,
-                 "fresh": 200 if thorough else 90, "repeaters": 12, "switch": 1e-6, "timeout": 600 if thorough else 240}
+                 "fresh": 400 if thorough else 220, "repeaters": 12, "switch": 1e-6, "timeout": 600 if thorough else 240}
         rc, res, log = run_script("hammer", f"hammer{rep}", hspec, timeout=hspec["timeout"] + 120)
         if res is None:
             chk.violation("the threaded process crashed or hung in the hammer phases (exit status "
